@@ -10,7 +10,8 @@ THEOREMS = ['MindsVerif.Props.C01.' + n for n in (
     'C01_partial_select', 'C01_partial_select_good', 'C01_select_good', 'C01_partial_select_stable',
     'C01_partial_union', 'C01_partial_union_left', 'C01_witness_union',
     'C01_partial_expr_sqlite', 'C01_partial_expr_mysql', 'C01_partial_expr_mindsdb',
-    'C01_regress_parameter', 'C01_regress_variable')]
+    'C01_regress_parameter', 'C01_regress_variable', 'C01_partial_compose', 'C01_partial_select_expr',
+    'C01_partial_select_expr_sqlite', 'C01_partial_select_expr_mysql', 'C01_partial_select_expr_mindsdb')]
 ASSUME = [
     'C01_full is proved per layer only: L2 expressions (operator-precedence machine, tied to the LALR tables by C03.phi3b) and '
     'L3 SELECT skeleton / set-operation chains (hand model Model/SelectSkel.lean of the clause rules, ensure_select_keyword_order and '
@@ -267,6 +268,148 @@ def atom_stream(chk, cl, dist, quick):
                 text = c % ((l,) * c.count('%s'))
                 run_case(chk, cl, d, text, 'literal', dist, 'literal/%s' % d)
 
+
+
+# ------------------------------------------------------------------------------------------ optional sub-parts
+# For every clause / node class with optional attributes: combinations of present / absent sub-parts.
+# A spec is a list of segments; a segment is a literal or a list of alternatives ('' = absent).  Small specs are
+# expanded completely, large ones by each-choice (every alternative once with the other segments at their first and at
+# their last alternative) plus a random sample with a FIXED sub-seed (deterministic, vetted).
+DIRS = ['', ' ASC', ' DESC']
+NULLS = ['', ' NULLS FIRST', ' NULLS LAST']
+ORD9 = [d + n for d in DIRS for n in NULLS]
+JOINS = ['JOIN', 'LEFT JOIN', 'RIGHT JOIN', 'INNER JOIN', 'FULL JOIN', 'CROSS JOIN', 'OUTER JOIN', 'LEFT OUTER JOIN', 'FULL OUTER JOIN']
+SETOPS = ['UNION', 'UNION ALL', 'UNION DISTINCT', 'INTERSECT', 'INTERSECT ALL', 'INTERSECT DISTINCT', 'EXCEPT', 'EXCEPT ALL']
+OPERANDS = ['a', '1', "'s'", 'a + 1', 'a = 1', 'f(a)', '(SELECT 1)', 'CASE WHEN a THEN 1 ELSE 2 END', 'CAST(a AS int)', 'NULL',
+            't.a', '- a', 'NOT a', 'a IN (1, 2)', 'a BETWEEN 1 AND 2', 'a IS NULL', '@v', 'TRUE', 'a AND b', '(1, 2)', '*', 'count(*)']
+POSITIONS = ['SELECT %s FROM t', 'SELECT %s AS x FROM t', 'SELECT b, %s FROM t', 'SELECT * FROM t WHERE %s', 'SELECT a FROM t GROUP BY %s',
+             'SELECT a FROM t GROUP BY b HAVING %s', 'SELECT a FROM t ORDER BY %s', 'SELECT a FROM t ORDER BY %s DESC NULLS LAST',
+             'SELECT f(%s) FROM t', 'SELECT f(1, %s) FROM t', 'SELECT CASE %s WHEN 1 THEN 2 END', 'SELECT CASE WHEN %s THEN 1 END',
+             'SELECT CASE WHEN a THEN %s END', 'SELECT CASE WHEN a THEN 1 ELSE %s END', 'SELECT CAST(%s AS int)',
+             'SELECT %s IN (1, 2)', 'SELECT a IN (%s, 2)', 'SELECT %s BETWEEN 1 AND 2', 'SELECT a BETWEEN %s AND 2',
+             'SELECT a BETWEEN 1 AND %s', 'SELECT * FROM t1 JOIN t2 ON %s', 'INSERT INTO t (a) VALUES (%s)', 'UPDATE t SET a = %s',
+             'UPDATE t SET a = 1 WHERE %s', 'DELETE FROM t WHERE %s', 'SELECT %s + 1', 'SELECT 1 + %s', 'SELECT - %s', 'SELECT NOT %s',
+             'SELECT %s IS NULL', 'SELECT %s = 2', 'SELECT 2 = %s', 'SELECT %s AND b', 'SELECT b OR %s', 'SELECT %s LIKE b',
+             'SELECT sum(a) OVER (PARTITION BY %s) FROM t', 'SELECT sum(a) OVER (ORDER BY %s) FROM t', 'SELECT count(DISTINCT %s) FROM t',
+             'SELECT * FROM t WHERE EXISTS (SELECT 1 FROM u WHERE %s)', 'SELECT (%s, 1)', 'SELECT * FROM t LIMIT %s', 'SET a = %s',
+             'SELECT * FROM t WHERE a = 1 AND %s OR c', 'SELECT substring(%s FROM 1)', 'WITH w AS (SELECT %s) SELECT * FROM w',
+             'SELECT %s UNION SELECT %s']
+SEL_TARGETS = ['a', 'a AS x', 'a x', 'a AS "x y"', '*', 't.*', 'a, b AS y', '(a)', '(a) AS x', 'f(a) AS x', "'s' AS x",
+           '(SELECT 1) AS x', '(SELECT 1)', 'CASE WHEN a THEN 1 END AS x', 'a AS `select`', 'count(*) c', '1 + 2 AS x']
+FROMS = ['t', 't AS u', 't u', 'db.t', 'db.t AS u', '(SELECT 1) AS s', '(SELECT 1) s', 't1, t2', 't1 AS a1, t2 AS a2', 't1 JOIN t2 ON t1.a = t2.a',
+         '(SELECT 1 UNION SELECT 2) AS s', 't AS "u v"']
+
+
+def part_specs(d):
+    term = lambda f: [f + o for o in ORD9]
+    S = [
+        # ordering terms: direction x nulls, one / two terms, plain / qualified / parenthesised field
+        ('order', ['SELECT a FROM t ORDER BY ', ['a', 't.b', '(a)', 'a + 1', 'f(a)'], ORD9]),
+        ('order2', ['SELECT a FROM t ORDER BY a', ORD9, ', b', ORD9]),
+        ('order-ctx', ['SELECT a FROM t', ['', ' WHERE a = 1', ' GROUP BY a'], ' ORDER BY a', ORD9, ['', ' LIMIT 1', ' LIMIT 1 OFFSET 2']]),
+        ('window', ['SELECT ', ['sum(a)', 'row_number()', 'f(a, b)'], ' OVER (', ['', 'PARTITION BY b', 'PARTITION BY b, c'], ' ',
+                    ['', 'ORDER BY c'] , ORD9, ')', ['', ' AS w', ' w'], ' FROM t']),
+        ('select', ['SELECT', ['', ' DISTINCT'], ' ', SEL_TARGETS, ' FROM ', FROMS, ['', ' WHERE a = 1', ' WHERE (a = 1)', ' WHERE NOT a = 1'],
+                    ['', ' GROUP BY a', ' GROUP BY a, (b)'], ['', ' HAVING count(a) > 1', ' HAVING (a > 1)'], ['', ' ORDER BY a', ' ORDER BY a DESC, b NULLS FIRST'],
+                    ['', ' LIMIT 1', ' LIMIT 1 OFFSET 2', ' LIMIT 2, 1', ' OFFSET 2'], ['', ' FOR UPDATE']]),
+        ('select-nofrom', ['SELECT', ['', ' DISTINCT'], ' ', SEL_TARGETS, ['', ' LIMIT 1', ' LIMIT 2, 1', ' OFFSET 2', ' LIMIT 1 OFFSET 2']]),
+        ('join', ['SELECT * FROM ', ['t1', 't1 AS a', '(SELECT 1) AS a'], ' ', JOINS, ' ', ['t2', 't2 AS b', 't2 b', '(SELECT 2) AS b'],
+                  ['', ' ON a.x = b.x', ' ON (a.x = b.x)', ' ON a.x = b.x AND a.y > 1'],
+                  ['', ' LEFT JOIN t3 ON t3.x = 1', ' JOIN t3', ' JOIN t3 AS c ON c.x = a.x WHERE c.x = 1']]),
+        ('join-implicit', ['SELECT * FROM ', ['t1', 't1 AS a'], ', ', ['t2', 't2 AS b', '(SELECT 1) AS b'], ['', ', t3', ', t3 c'], ['', ' WHERE t1.x = t2.x']]),
+        ('setop', [['SELECT 1', '(SELECT 1)', 'SELECT a FROM t LIMIT 1', '(SELECT a FROM t ORDER BY a LIMIT 1)'], ' ', SETOPS, ' ',
+                   ['SELECT 2', '(SELECT 2)', 'SELECT b FROM u WHERE b = 1', '(SELECT b FROM u LIMIT 2)'], ['', ' ORDER BY 1', ' LIMIT 3']]),
+        ('setop3', [['SELECT 1', '(SELECT 1'], ' ', SETOPS, ' ', ['SELECT 2', '(SELECT 2', 'SELECT 2)'], ' ', SETOPS, ' ', ['SELECT 3', 'SELECT 3)']]),
+        ('function', ['SELECT ', ['count', 'f', 'db.f', 'max'], '(', ['', 'DISTINCT '], ['a', '*', 'a, b', '', '1', 't.a'], ')', ['', ' AS x', ' x'], ['', ' FROM t']]),
+        ('cast', ['SELECT CAST(', ['a', '1', 'a + 1'], ' AS ', ['int', 'decimal(10)', 'decimal(10, 2)', 'varchar(5)', 'date'], ')', ['', ' AS x']]),
+        ('case', ['SELECT CASE', ['', ' a'], ' WHEN 1 THEN 2', ['', ' WHEN 3 THEN 4'], ['', ' ELSE 5', ' ELSE (5)'], ' END', ['', ' AS x', ' x'], ['', ' FROM t']]),
+        ('insert', ['INSERT INTO ', ['t', 'db.t'], ['', ' (a)', ' (a, b)'], [' VALUES (1)', ' VALUES (1, 2)', ' VALUES (1, 2), (3, 4)', ' SELECT 1',
+                    ' SELECT a, b FROM t2', ' (SELECT 1)', " VALUES ('s', NULL)"]]),
+        ('update', ['UPDATE ', ['t', 'db.t'], ' SET a = 1', ['', ', b = 2', ", b = 's'"], ['', ' WHERE a = 1', ' WHERE (a = 1) AND b IS NULL']]),
+        ('delete', ['DELETE FROM ', ['t', 'db.t'], ['', ' WHERE a = 1', ' WHERE a IN (SELECT b FROM u)']]),
+        ('create-table', ['CREATE ', ['', 'OR REPLACE '], 'TABLE ', ['', 'IF NOT EXISTS '], ['t', 'db.t'], ' ',
+                          ['(a int)', '(a int, b varchar(10))', '(a int NOT NULL)', '(a int NULL)', '(a int DEFAULT 1)', '(a int PRIMARY KEY)',
+                           '(a int, PRIMARY KEY (a))', '(a serial)', 'SELECT 1', '(SELECT 1)', 'AS (SELECT 1)', 'AS SELECT 1']]),
+        ('drop', ['DROP ', ['TABLE', 'VIEW', 'DATABASE', 'SCHEMA'], ' ', ['', 'IF EXISTS '], ['t', 't1, t2', 'db.t']]),
+        ('cte', ['WITH w', ['', ' (x)', ' (x, y)'], ' AS (SELECT 1', ['', ', 2'], ')', ['', ', w2 AS (SELECT 2)'], ' SELECT ', ['*', 'x'], ' FROM w', ['', ' WHERE x = 1']]),
+        ('show', ['SHOW ', ['', 'FULL ', 'EXTENDED ', 'GLOBAL ', 'SESSION '], ['TABLES', 'COLUMNS', 'DATABASES', 'VARIABLES', 'INDEXES', 'STATUS', 'SCHEMAS', 'ENGINES',
+                  'FUNCTION STATUS', 'CHARACTER SET', 'COLLATION', 'PROCESSLIST', 'TABLE STATUS', 'WARNINGS', 'KEYS'], ['', ' FROM db', ' IN db', ' FROM t FROM db'],
+                  ['', " LIKE 'x'"], ['', ' WHERE a = 1']]),
+        ('set', ['SET ', ['a = 1', "a = 's'", 'a = 1, b = 2', 'NAMES utf8', "NAMES utf8 COLLATE utf8_bin", 'autocommit', 'GLOBAL a = 1', 'SESSION a = 1', '@a = 1',
+                 '@@a = 1', 'CHARACTER SET utf8', 'CHARSET DEFAULT', 'TRANSACTION READ ONLY', 'SESSION TRANSACTION ISOLATION LEVEL READ COMMITTED',
+                 'GLOBAL TRANSACTION ISOLATION LEVEL SERIALIZABLE, READ WRITE', 'a = b', 'a = NULL', 'a = TRUE']]),
+        ('misc', [['USE db', 'USE `a b`', 'START TRANSACTION', 'BEGIN', 'COMMIT', 'ROLLBACK', 'EXPLAIN t', 'EXPLAIN SELECT 1', 'DESCRIBE t', 'DESCRIBE db.t',
+                   'ALTER TABLE t DISABLE KEYS', 'ALTER TABLE t ENABLE KEYS', 'SELECT 1; ', 'SELECT DATABASE()', 'SELECT CURRENT_USER', 'SELECT @@version', 'SELECT LAST']]),
+    ]
+    if d == 'mindsdb':
+        S += [
+            ('create-model', ['CREATE ', ['', 'OR REPLACE '], ['MODEL', 'PREDICTOR'], ' ', ['', 'IF NOT EXISTS '], 'm', ['', ' FROM i (select 1)', ' FROM i (select a from t order by a)'],
+                              ' PREDICT ', ['p', 'p, q', 'p AS x'], ['', ' ORDER BY d' ], ORD9, ['', ' GROUP BY g', ' GROUP BY g, h'],
+                              ['', ' WINDOW 5'], ['', ' HORIZON 3'], ['', ' USING a = 1', " USING a = 's', b = 2", ' USING engine = "x"']]),
+            ('create-model-order2', ['CREATE MODEL m FROM i (select 1) PREDICT p ORDER BY d', ORD9, ', e', ORD9, ' WINDOW 5']),
+            ('retrain', [['RETRAIN', 'FINETUNE'], ' m', ['', ' FROM i (select 1)'], ['', ' USING a = 1', " USING a = 's', b = 2"]]),
+            ('evaluate', ['EVALUATE m FROM (select 1)', ['', ' USING a = 1', " USING a = 's'"]]),
+            ('create-db', ['CREATE ', ['', 'OR REPLACE '], ['DATABASE', 'PROJECT'], ' ', ['', 'IF NOT EXISTS '], 'd',
+                           ['', " WITH ENGINE = 'e'", " ENGINE 'e'", " USING ENGINE = 'e'", " WITH ENGINE 'e'"],
+                           ['', ', PARAMETERS = {"a": 1}', ' PARAMETERS {"a": "b", "c": [1, 2]}', ' PARAMETERS {}']]),
+            ('create-view', ['CREATE VIEW ', ['', 'IF NOT EXISTS '], ['v', 'p.v'], ['', ' FROM i'], [' AS (select 1)', ' (select 1)', ' AS (select a from t where a = 1)']]),
+            ('create-job', ['CREATE JOB ', ['', 'IF NOT EXISTS '], ['j', 'p.j'], [' (select 1)', ' AS (select 1; select 2)'], ['', " START '2020-01-01'", ' START now'],
+                            ['', " END '2021-01-01'"], ['', ' EVERY hour', ' EVERY 2 days'], ['', ' IF (select 1)']]),
+            ('create-misc', [['CREATE ML_ENGINE e FROM h', 'CREATE ML_ENGINE IF NOT EXISTS e FROM h', 'CREATE TRIGGER tr ON db.t (select 1)', 'CREATE TRIGGER tr ON db.t COLUMNS a, b (select 1)',
+                              "CREATE AGENT ag USING model = 'm'", "CREATE AGENT IF NOT EXISTS ag USING model = 'm', skills = ['s']", "CREATE SKILL sk USING type = 't'",
+                              "CREATE SKILL IF NOT EXISTS sk USING type = 't', a = 1", "CREATE CHATBOT cb USING database = 'd', model = 'm'",
+                              "CREATE KNOWLEDGE_BASE kb USING model = m", "CREATE KNOWLEDGE_BASE IF NOT EXISTS kb FROM (select 1) USING model = m, storage = s.t"],
+                             ['', ' USING a = 1', " USING a = 's', b = 2"]]),
+            ('update-cmd', [['UPDATE AGENT ag SET', 'UPDATE SKILL sk SET', 'UPDATE CHATBOT cb SET'], [' a = 1', " a = 's'", " a = 1, b = 's'", ' a = [1, 2]', ' a = {"x": 1}']]),
+            ('drop-cmd', ['DROP ', ['MODEL', 'PREDICTOR', 'JOB', 'TRIGGER', 'AGENT', 'SKILL', 'CHATBOT', 'KNOWLEDGE_BASE', 'ML_ENGINE', 'DATASOURCE', 'VIEW', 'PROJECT'], ' ',
+                          ['', 'IF EXISTS '], ['x', 'p.x']]),
+            ('describe', ['DESCRIBE ', ['', 'MODEL ', 'AGENT ', 'JOB ', 'SKILL '], ['m', 'p.m', 'p.m.attr']]),
+            ('select-using', ['SELECT a FROM t', ['', ' WHERE a = 1'], ['', ' LIMIT 1'], [' USING x = 1', " USING x = 's', y = 2", ' USING x = [1, 2]']]),
+            ('native', ['SELECT * FROM i (', ['select 1', 'select a, b from t where a = 1', 'show tables'], ')', ['', ' AS n', ' n'], ['', ' WHERE a = 1']]),
+            ('update-from', ['UPDATE t SET a = s.a', ['', ', b = s.b'], ' FROM (SELECT 1) AS s', ['', ' WHERE t.a = s.a']]),
+            ('update-on', ['UPDATE t ON a', ['', ', b'], ' FROM (select 1)']),
+            ('latest', ['SELECT * FROM t WHERE ', ['a > LATEST', 'a = LATEST AND b = 1']]),
+        ]
+    return S
+
+
+def expand(spec, rng, cap):
+    import itertools
+    segs = [x if isinstance(x, list) else [x] for x in spec]
+    total = 1
+    for x in segs:
+        total *= len(x)
+    if total <= cap:
+        for combo in itertools.product(*segs):
+            yield ''.join(combo)
+        return
+    seen = set()
+    for i, x in enumerate(segs):
+        for alt in x:
+            for base in (0, -1):
+                t = ''.join(alt if j == i else y[base] for j, y in enumerate(segs))
+                if t not in seen:
+                    seen.add(t)
+                    yield t
+    for _ in range(cap):
+        t = ''.join(rng.choice(y) for y in segs)
+        if t not in seen:
+            seen.add(t)
+            yield t
+
+
+def parts_stream(chk, cl, dist, quick):
+    for d in DIALECTS:
+        rng = common.rng_for('C01-fixed-parts', d)
+        for name, spec in part_specs(d):
+            for text in expand(spec, rng, 700 if quick else 4000):
+                run_case(chk, cl, d, text, 'parts:' + name, dist, 'parts/%s/%s' % (d, name))
+        # parentheses flag on every expression position
+        for pos in POSITIONS:
+            for x in OPERANDS:
+                for w in ('%s', '(%s)', '((%s))'):
+                    e = w % x
+                    run_case(chk, cl, d, pos % ((e,) * pos.count('%s')), 'parts:paren', dist, 'parts/%s/paren' % d)
 
 # ------------------------------------------------------------------------------------------ SELECT skeleton
 def pay_sql(n, role):
@@ -529,6 +672,7 @@ def run(chk):
     wild_stream(chk, cl, dist, FIXED_QUICK if quick and not broken else (FIXED_DEEP[:3] if quick else FIXED_DEEP))
     expr_stream(chk, cl, dist, quick)
     atom_stream(chk, cl, dist, quick)
+    parts_stream(chk, cl, dist, quick)
     skeleton_stream(chk, cl, dist, quick)
     # known findings still reproduce?
     for k in chk.kf:
